@@ -344,13 +344,30 @@ class IdxAny(object):
             raise AnalysisError('ravel_multi_index with a data dependent column')
         return IdxAny(self.tags, rng=dims, col=int(col))
 
+    # row * ncols + col written by hand is the same flat index as ravel_multi_index((row, col), (nrows, ncols))
+    def __mul__(self, k):
+        if isinstance(k, int) and not isinstance(k, bool) and k > 0 and self.col is None and self.rng is None:
+            return IdxAny(self.tags, rng=('scale', k))
+        raise AnalysisError('arithmetic on a data dependent index: %r * %r' % (self, k))
+    __rmul__ = __mul__
+
+    def __add__(self, c):
+        if isinstance(c, int) and not isinstance(c, bool) and self.rng is not None and self.rng[0] == 'scale' and 0 <= c < self.rng[1]:
+            return IdxAny(self.tags, rng=(None, self.rng[1]), col=c)
+        raise AnalysisError('arithmetic on a data dependent index: %r + %r' % (self, c))
+    __radd__ = __add__
+
     def flat_get(self, arr):
         """arr.flat[self]: any row of column self.col of a table with shape self.rng"""
+        if self.rng is not None and self.rng[0] == 'scale':
+            raise AnalysisError('a scaled data dependent index used without a column offset')
         if self.col is None or self.rng is None:
             # completely unknown position: join of everything
             vals = arr.items()
         else:
             nrows, ncols = self.rng
+            if nrows is None:
+                nrows = arr.size // ncols
             if arr.size != nrows * ncols:
                 raise InterpValueError('flat index built for shape %s used on array of size %d' % (self.rng, arr.size))
             vals = [arr.buf.data[arr.pos[r * ncols + self.col]] for r in range(nrows)]
